@@ -296,6 +296,70 @@ def State.executing (s : State) (l : Label) : Bool :=
 def holders (s : State) : List Label := s.registry.filter fun l => s.holds l
 def executingSet (s : State) : List Label := s.registry.filter fun l => s.executing l
 
+/-! ### the gate at the level of `cond.Wait` / `cond.Signal`
+
+`step` lets a thread pass `gate.enter()` whenever a slot is free. The code is one level finer: a thread that finds
+`capacity == 0` goes to sleep in `g.cond.Wait()` and stays there until some `gate.exit()` *signals* it; `Signal`
+wakes one waiter (Go's `sync.Cond` wakes the longest waiter, has no spurious wake-ups), and the woken thread re-tests
+the capacity in the `for` loop. `GState` adds exactly that to a `State`: who sleeps (`asleep`) and in which order they
+went to sleep (`gateQ`). Every `gstep` is a `step` of the `core` or leaves the `core` unchanged (going to sleep), so
+all safety theorems carry over (`GReachable.core`); deadlock freedom is proved again at this level
+(`C05_deadlock_free_signal`), and it is false for a gate that signals only when the first slot becomes free
+(`gstepV true`, `C05_signal_only_when_first_slot_frees_counterexample`). -/
+
+def PC.atGate : PC → Bool
+  | .enter1 | .enter2 _ => true
+  | _ => false
+
+def PC.isExit : PC → Bool
+  | .exit1 | .exit2 => true
+  | _ => false
+
+structure GState where
+  core   : State
+  asleep : Label → Bool          -- inside `g.cond.Wait()`, not signalled
+  gateQ  : List Label            -- the sleepers, longest waiting first
+
+def ginit (P : Params) : GState := { core := init P, asleep := fun _ => false, gateQ := [] }
+
+/-- `g.cond.Signal()` -/
+def gsignal (g : GState) : GState :=
+  match g.gateQ with
+  | [] => g
+  | w :: q => { g with asleep := upd g.asleep w false, gateQ := q }
+
+/-- `onlyFirst = false`: the code (`exit` always signals). `onlyFirst = true`: the variant that signals only when the
+    capacity goes from 0 to 1. -/
+def gstepV (onlyFirst : Bool) (P : Params) (g : GState) : Tid → Option GState
+  | .main => (step P g.core .main).map fun c => { g with core := c }
+  | .tgt l =>
+    match g.core.pc l with
+    | none => none
+    | some p =>
+      if p.atGate then
+        if g.asleep l then none                                             -- sleeping until signalled
+        else if g.core.capacity = 0 then                                    -- `for g.capacity == 0 { g.cond.Wait() }`
+          some { g with asleep := upd g.asleep l true, gateQ := g.gateQ ++ [l] }
+        else (step P g.core (.tgt l)).map fun c => { g with core := c }     -- `g.capacity--`
+      else if p.isExit then
+        (step P g.core (.tgt l)).map fun c =>
+          if onlyFirst && g.core.capacity != 0 then { g with core := c } else gsignal { g with core := c }
+      else (step P g.core (.tgt l)).map fun c => { g with core := c }
+
+def gstep (P : Params) (g : GState) (t : Tid) : Option GState := gstepV false P g t
+
+inductive GReachable (P : Params) : GState → Prop where
+  | init : GReachable P (ginit P)
+  | step {g g' : GState} (t : Tid) : GReachable P g → gstep P g t = some g' → GReachable P g'
+
+/-- reachability under a chosen signalling variant (for the regression witness) -/
+inductive GReachableV (onlyFirst : Bool) (P : Params) : GState → Prop where
+  | init : GReachableV onlyFirst P (ginit P)
+  | step {g g' : GState} (t : Tid) : GReachableV onlyFirst P g → gstepV onlyFirst P g t = some g' →
+      GReachableV onlyFirst P g'
+
+def genabled (P : Params) (g : GState) : List Tid := (threads g.core).filter fun t => (gstep P g t).isSome
+
 /-! ### the order of operations the program counters follow (compared with the source by `Dawn/Ties/Runner.lean`) -/
 
 /-- top level of `EvaluateTargets`: `exit1`, (deferred `enter2`), `startDeps`, publish, (deferred un-publish), walk, `waitDeps` -/
